@@ -49,6 +49,16 @@ type VerifC11Spec struct {
 	Dies    int            `json:"dies"`    // -1: never; k >= 0: the server process dies once k requests were handed to the client
 	Stderr  string         `json:"stderr"`  // what a reference server prints on stderr
 	Chunk   int            `json:"chunk"`   // stderr is delivered in reads of at most Chunk bytes (0: all at once)
+	Creds   bool           `json:"creds,omitempty"` // the runner holds server and client TLS credentials for this batch (as run() does for TLS instances)
+}
+
+// verifC11Creds: what run() hands to runTestCasesForServer for a TLS server instance.
+func verifC11Creds(on bool) (server, client *conformancev1.TLSCreds) {
+	if !on {
+		return nil, nil
+	}
+	return &conformancev1.TLSCreds{Cert: []byte("runner-server-cert"), Key: []byte("runner-server-key")},
+		&conformancev1.TLSCreds{Cert: []byte("runner-client-cert"), Key: []byte("runner-client-key")}
 }
 
 // VerifC11Req describes one request as the client received it.
@@ -468,7 +478,8 @@ func verifC11Run(spec VerifC11Spec) (VerifC11Obs, *testResults) {
 	done := make(chan struct{})
 	go func() {
 		defer close(done)
-		runTestCasesForServer(context.Background(), !spec.IsRef, spec.IsRef, meta, cases, nil, nil, starter,
+		serverCreds, clientCreds := verifC11Creds(spec.Creds)
+		runTestCasesForServer(context.Background(), !spec.IsRef, spec.IsRef, meta, cases, serverCreds, clientCreds, starter,
 			verifNopPrinter{}, printer, results, client, nil, false)
 	}()
 	var obs VerifC11Obs
